@@ -57,6 +57,7 @@ type snapRec struct {
 var c12World *bWorld
 var c12Bad *grpc.ServiceDesc
 var c12GSD2 *grpc.ServiceDesc
+var c12GSD4 *grpc.ServiceDesc // vb.S4: a fourth, well-formed local service no back-end offers
 
 func c12Init() {
 	if c12World != nil {
@@ -74,6 +75,17 @@ func c12Init() {
 	if err := w.reg.RegisterFile(fd); err != nil {
 		panic(err)
 	}
+	f4 := dyn.File{Name: "vb/s4.proto", Pkg: "vb", Deps: []protoreflect.FileDescriptor{w.msgs}, Services: []dyn.Service{{Name: "S4", Methods: []dyn.Method{
+		{Name: "M1", In: "Req", Out: "Rsp", Rule: &dyn.Rule{Kind: "get", Path: "/s4/{s}"}},
+	}}}}
+	fd4, _, err := f4.Build()
+	if err != nil {
+		panic(err)
+	}
+	if err := w.reg.RegisterFile(fd4); err != nil {
+		panic(err)
+	}
+	c12GSD4 = dyn.ServiceDesc(fd4.Services().Get(0))
 	c12Bad = dyn.ServiceDesc(fd.Services().Get(0))
 	c12GSD2 = dyn.ServiceDesc(w.f2.Services().Get(0))
 	c12World = w
@@ -164,6 +176,7 @@ func (s *c12Sys) request(client int, svc, via string) {
 type c12State struct {
 	S2Local bool
 	B3      bool
+	S4      bool
 }
 
 var c12Model = porcupine.Model{
@@ -175,6 +188,9 @@ var c12Model = porcupine.Model{
 		switch i.Op {
 		case "regS2":
 			s.S2Local = true
+			return o.Res == "ok", s
+		case "regS4":
+			s.S4 = true
 			return o.Res == "ok", s
 		case "regBad":
 			return o.Res == "error", s
@@ -190,6 +206,10 @@ var c12Model = porcupine.Model{
 			switch i.Svc {
 			case "S1":
 				owners = []string{"local"}
+			case "S4":
+				if s.S4 {
+					owners = []string{"s4local"}
+				}
 			case "S2":
 				if s.S2Local {
 					owners = append(owners, "s2local")
@@ -225,10 +245,30 @@ type c12Probe struct {
 func (w *bWorld) allProbes() []c12Probe {
 	var out []c12Probe
 	base := w.probes()
-	vias := []string{"/route", "/implicit", "/grpc"}
-	for i, p := range base {
-		out = append(out, c12Probe{p, vias[i%3]})
+	for _, p := range base {
+		via := "/route"
+		switch {
+		case strings.Contains(p.name, "(implicit)"):
+			via = "/implicit"
+		case strings.HasPrefix(p.name, "gRPC"):
+			via = "/grpc"
+		case strings.Contains(p.name, "other verb"):
+			via = "/delete"
+		case strings.Contains(p.name, "additional binding"):
+			via = "/alt"
+		}
+		out = append(out, c12Probe{p, via})
 	}
+	out = append(out, c12Probe{c11Probe{name: "GET /s4/x", svc: "S4", run: func(m httpHandler) (string, int, string) {
+		r := serveSimple(m, "GET", "/s4/x", "")
+		if r.Panicked {
+			return "", 0, r.Panic
+		}
+		if r.Code == 200 {
+			return "s4local", 200, ""
+		}
+		return "", r.Code, ""
+	}}, "/route"})
 	// S3 (never successfully registered)
 	out = append(out, c12Probe{c11Probe{name: "GET /s3/x", svc: "S3", run: func(m httpHandler) (string, int, string) {
 		r := serveSimple(m, "GET", "/s3/x", "")
@@ -271,6 +311,13 @@ func c12Thread(client int, name string, ops []c12Op) e3Thread {
 			case "regS2":
 				s.record(client, c12In{Op: "regS2"}, func() c12Out {
 					if err := s.mux.VerifRegisterService(s.gsd2, dyn.NewServer(s.s2)); err != nil {
+						return c12Out{Res: "error"}
+					}
+					return c12Out{Res: "ok"}
+				})
+			case "regS4":
+				s.record(client, c12In{Op: "regS4"}, func() c12Out {
+					if err := s.mux.VerifRegisterService(c12GSD4, dyn.NewServer(&tagImpl{tag: "s4local", w: s.w})); err != nil {
 						return c12Out{Res: "error"}
 					}
 					return c12Out{Res: "ok"}
@@ -320,7 +367,7 @@ func c12Check(pre string) func(sys any, x *sched.S) []e3Fail {
 		// no concurrent reader happened to look)
 		if !s.finalProbed {
 			s.finalProbed = true
-			for _, svc := range []string{"S1", "S2", "S3"} {
+			for _, svc := range []string{"S1", "S2", "S3", "S4"} {
 				s.request(90, svc, "/route")
 			}
 		}
@@ -403,6 +450,10 @@ func c12Scenarios(thorough bool) []*e3Scenario {
 			c12Thread(0, "writer1", []c12Op{{op: "dropB3"}}),
 			c12Thread(1, "writer2", []c12Op{{op: "regS2"}}),
 			c12Thread(2, "reader", []c12Op{rq("S2", "/route"), rq("S2", "/grpc")})),
+		mk("registerconn-vs-register-other", "RegisterConn(b3:S2), with its reflection round trips, races with RegisterService(S4) of an unrelated local service: the registration that finishes first must survive the other's publication", "",
+			c12Thread(0, "writer1", []c12Op{{op: "regB3"}}),
+			c12Thread(1, "writer2", []c12Op{{op: "regS4"}}),
+			c12Thread(2, "reader", []c12Op{rq("S4", "/route"), rq("S2", "/implicit")})),
 		mk("drop-older-of-two-owners", "S2 is served by b3 (registered first) and a local service; DropConn(b3) runs while readers ask S2", "b3,s2",
 			c12Thread(0, "writer", []c12Op{{op: "dropB3"}}),
 			c12Thread(1, "reader1", []c12Op{rq("S2", "/route"), rq("S2", "/implicit")}),
